@@ -361,7 +361,7 @@ glyphLoop:
 				if err != nil {
 					return nil, err
 				}
-				if len(stack) < argN+2 {
+				if argN < 0 || len(stack) < argN+2 {
 					return nil, errIncomplete
 				}
 				// fmt.Println("callothersubr", idx, args)
@@ -404,6 +404,9 @@ glyphLoop:
 								flexData[12], flexData[13],
 							},
 						})
+					}
+					if len(postscriptStack) < 1 {
+						return nil, errIncomplete
 					}
 					postscriptStack = postscriptStack[:len(postscriptStack)-1]
 				case 1: // flex start (0 args)
